@@ -431,6 +431,17 @@ def publish_rules(ctx):
         var = norm(p.ast.value)
 
         def is_cr_replace(x, var=var):
+            # decided by what the statement does to a sample: `data = <expression over data>` leaves no CR in "a\rb\r" and
+            # leaves "ab" alone (a single replace, a chain of them, a regular-expression substitution folded by the evaluator)
+            if x.kind == "stmt" and isinstance(x.ast, ast.Assign) and len(x.ast.targets) == 1 and norm(x.ast.targets[0]) == var and \
+                    isinstance(x.ast.targets[0], ast.Name):
+                try:
+                    out1 = ctx.ce.eval(x.ast.value, ctx.repo.module(REL), {var: "a\rb\r"})
+                    out2 = ctx.ce.eval(x.ast.value, ctx.repo.module(REL), {var: "ab"})
+                    if isinstance(out1, str) and isinstance(out2, str):
+                        return "\r" not in out1 and out1.replace("\n", "") == "ab" and out2 == "ab"
+                except Exception:       # noqa: BLE001 -- not a constant function of the variable: the shape test below decides
+                    pass
             return x.kind == "stmt" and isinstance(x.ast, ast.Assign) and norm(x.ast.targets[0]) == var and \
                 isinstance(x.ast.value, ast.Call) and isinstance(x.ast.value.func, ast.Attribute) and x.ast.value.func.attr == "replace" and \
                 len(x.ast.value.args) == 2 and isinstance(x.ast.value.args[0], ast.Constant) and x.ast.value.args[0].value == "\r" and \
